@@ -27,18 +27,41 @@ const marker = "tenant_zq" // the scoped schema's name: must never be mentioned 
 
 type ev map[string]any
 
+// fk5 is a foreign key of the catalogue model; it travels as [child, parent, name, definition, [columns]].
+type fk5 struct {
+	Child, Parent, Name, Def string
+	Cols                     []string
+}
+
+func (f fk5) MarshalJSON() ([]byte, error) {
+	cols := f.Cols
+	if cols == nil {
+		cols = []string{}
+	}
+	return json.Marshal([]any{f.Child, f.Parent, f.Name, f.Def, cols})
+}
+
+func identList(s string) []string {
+	out := []string{}
+	for _, x := range reIdentOnly.FindAllString(s, -1) {
+		out = append(out, unq(x))
+	}
+	return out
+}
+
 type scenario struct {
-	ID      int      `json:"id"`
-	Dialect string   `json:"dialect"`
-	N       int      `json:"n"`
-	Graph   [][2]int `json:"graph"`
-	Roles   string   `json:"roles"` // per table: c(reated) d(ropped) k(ept)
-	Req     string   `json:"req"`
-	Dir     string   `json:"dir"` // up | updown
-	First   int      `json:"first"`
-	Last    int      `json:"last"`
-	Err     string   `json:"err,omitempty"`
-	Stmts   []string `json:"stmts,omitempty"`
+	ID      int            `json:"id"`
+	Dialect string         `json:"dialect"`
+	N       int            `json:"n"`
+	Graph   [][2]int       `json:"graph"`
+	Roles   string         `json:"roles"` // per table: c(reated) d(ropped) k(ept)
+	Req     string         `json:"req"`
+	Dir     string         `json:"dir"` // up | updown
+	First   int            `json:"first"`
+	Last    int            `json:"last"`
+	Err     string         `json:"err,omitempty"`
+	Stmts   []string       `json:"stmts,omitempty"`
+	Extra   map[string]any `json:"extra,omitempty"` // further fields of the generated case (known-finding signatures)
 }
 
 var (
@@ -92,21 +115,22 @@ func (w *world) tableWith(i int, fks []*schema.ForeignKey) *schema.Table {
 }
 
 type plan struct {
+	dropped int // columns dropped next to their foreign keys
 	changes []schema.Change
 	start   struct {
 		tables []string
-		fks    [][4]string
+		fks    []fk5
 	}
 	want struct {
 		tables []string
-		fks    [][4]string
+		fks    []fk5
 	}
 }
 
 // scenarioChanges derives the change set, the start and the wanted catalogue from (graph, roles).
-func scenarioChanges(w *world, n int, edges [][2]int, roles string) *plan {
+func scenarioChanges(w *world, n int, edges [][2]int, roles string, dropcol bool) *plan {
 	p := &plan{}
-	p.start.tables, p.start.fks, p.want.tables, p.want.fks = []string{}, [][4]string{}, []string{}, [][4]string{}
+	p.start.tables, p.start.fks, p.want.tables, p.want.fks = []string{}, []fk5{}, []string{}, []fk5{}
 	exists0 := func(i int) bool { return roles[i] != 'c' }
 	exists1 := func(i int) bool { return roles[i] != 'd' }
 	startF := map[int][]*schema.ForeignKey{}
@@ -170,6 +194,19 @@ func scenarioChanges(w *world, n int, edges [][2]int, roles string) *plan {
 			for _, fk := range dropF[i] {
 				cs = append(cs, &schema.DropForeignKey{F: fk})
 			}
+			if dropcol {
+				// the columns of the dropped foreign keys go away with them (a column used by two keys once)
+				seen := map[string]bool{}
+				for _, fk := range dropF[i] {
+					for _, c := range fk.Columns {
+						if !seen[c.Name] {
+							seen[c.Name] = true
+							cs = append(cs, &schema.DropColumn{C: c})
+							p.dropped++
+						}
+					}
+				}
+			}
 			if len(cs) > 0 {
 				p.changes = append(p.changes, &schema.ModifyTable{T: w.tables[i], Changes: cs})
 			}
@@ -183,14 +220,15 @@ var (
 	reQualified  = regexp.MustCompile(`(` + reIdent + `)\.(` + reIdent + `)`)
 	reCreate     = regexp.MustCompile(`^CREATE TABLE (?:IF NOT EXISTS )?((?:` + reIdent + `\.)?` + reIdent + `)`)
 	reActions    = `((?: ON (?:UPDATE|DELETE) (?:NO ACTION|RESTRICT|CASCADE|SET NULL|SET DEFAULT))*)`
-	reInline     = regexp.MustCompile(`CONSTRAINT (` + reIdent + `) FOREIGN KEY \([^)]*\) REFERENCES ((?:` + reIdent + `\.)?` + reIdent + `) ?\([^)]*\)` + reActions)
+	reInline     = regexp.MustCompile(`CONSTRAINT (` + reIdent + `) FOREIGN KEY \(([^)]*)\) REFERENCES ((?:` + reIdent + `\.)?` + reIdent + `) ?\([^)]*\)` + reActions)
 	reAlter      = regexp.MustCompile(`^ALTER TABLE ((?:` + reIdent + `\.)?` + reIdent + `) (.*)$`)
-	reAddFK      = regexp.MustCompile(`ADD CONSTRAINT (` + reIdent + `) FOREIGN KEY \([^)]*\) REFERENCES ((?:` + reIdent + `\.)?` + reIdent + `) ?\([^)]*\)` + reActions)
+	reAddFK      = regexp.MustCompile(`ADD CONSTRAINT (` + reIdent + `) FOREIGN KEY \(([^)]*)\) REFERENCES ((?:` + reIdent + `\.)?` + reIdent + `) ?\([^)]*\)` + reActions)
 	reDropFK     = regexp.MustCompile(`DROP (?:FOREIGN KEY|CONSTRAINT) (` + reIdent + `)`)
 	reAddChk     = regexp.MustCompile(`ADD (?:CONSTRAINT (` + reIdent + `) )?CHECK \(`)
 	reDropChk    = regexp.MustCompile(`DROP (?:CONSTRAINT|CHECK) (` + "[`\"]ck_[a-z0-9_]+[`\"]" + `)`)
 	reAddIdx     = regexp.MustCompile(`ADD (?:UNIQUE |FULLTEXT |SPATIAL )?(?:INDEX|KEY) (` + reIdent + `)(?: USING \w+)? ?\(([^)]*)\)`)
 	reCreateIdx  = regexp.MustCompile(`^CREATE (?:UNIQUE )?INDEX (?:CONCURRENTLY )?(?:IF NOT EXISTS )?` + reIdent + ` ON ((?:` + reIdent + `\.)?` + reIdent + `)(?: USING \w+)? ?\(([^)]*)\)`)
+	reDropCol    = regexp.MustCompile(`DROP COLUMN (` + reIdent + `)`)
 	reDropT      = regexp.MustCompile(`^DROP TABLE (?:IF EXISTS )?((?:` + reIdent + `\.)?` + reIdent + `)`)
 	reCommentCol = regexp.MustCompile(`COMMENT ON COLUMN (` + reIdent + `(?:\.` + reIdent + `){1,2})`)
 	reIdentOnly  = regexp.MustCompile(reIdent)
@@ -201,7 +239,7 @@ var (
 
 // fkTuple is a foreign key as the catalogue model sees it: child, parent, constraint name and the rest of its definition spelled the
 // way both planners spell it.
-func fkTuple(fk *schema.ForeignKey) [4]string {
+func fkTuple(fk *schema.ForeignKey) fk5 {
 	var d []string
 	if fk.OnUpdate != "" {
 		d = append(d, "ON UPDATE "+string(fk.OnUpdate))
@@ -209,7 +247,11 @@ func fkTuple(fk *schema.ForeignKey) [4]string {
 	if fk.OnDelete != "" {
 		d = append(d, "ON DELETE "+string(fk.OnDelete))
 	}
-	return [4]string{fk.Table.Name, fk.RefTable.Name, fk.Symbol, strings.Join(d, " ")}
+	cols := []string{}
+	for _, c := range fk.Columns {
+		cols = append(cols, c.Name)
+	}
+	return fk5{fk.Table.Name, fk.RefTable.Name, fk.Symbol, strings.Join(d, " "), cols}
 }
 
 // nparts: 0 for an empty key-part list, otherwise a positive number (the text up to the first closing parenthesis is enough to tell)
@@ -275,10 +317,10 @@ func events(cid int, cmd string) []ev {
 		_, t := splitQ(reCreate.FindStringSubmatch(flat)[1])
 		e := base("create")
 		e["t"] = t
-		inl := [][4]string{}
+		inl := []fk5{}
 		for _, m := range reInline.FindAllStringSubmatch(flat, -1) {
-			_, p := splitQ(m[2])
-			inl = append(inl, [4]string{t, p, unq(m[1]), strings.TrimSpace(m[3])})
+			_, p := splitQ(m[3])
+			inl = append(inl, fk5{t, p, unq(m[1]), strings.TrimSpace(m[4]), identList(m[2])})
 		}
 		e["inline"] = inl
 		return []ev{e}
@@ -299,8 +341,9 @@ func events(cid int, cmd string) []ev {
 		var hits []hit
 		for _, ix := range reAddFK.FindAllStringSubmatchIndex(m[2], -1) {
 			e := base("addfk")
-			_, p := splitQ(m[2][ix[4]:ix[5]])
-			e["t"], e["p"], e["n"], e["d"] = t, p, unq(m[2][ix[2]:ix[3]]), strings.TrimSpace(m[2][ix[6]:ix[7]])
+			_, p := splitQ(m[2][ix[6]:ix[7]])
+			e["t"], e["p"], e["n"], e["d"] = t, p, unq(m[2][ix[2]:ix[3]]), strings.TrimSpace(m[2][ix[8]:ix[9]])
+			e["cols"] = identList(m[2][ix[4]:ix[5]])
 			hits = append(hits, hit{ix[0], e})
 		}
 		for _, ix := range reAddChk.FindAllStringSubmatchIndex(m[2], -1) {
@@ -333,7 +376,27 @@ func events(cid int, cmd string) []ev {
 			e["t"], e["n"] = t, unq(m[2][ix[2]:ix[3]])
 			hits = append(hits, hit{ix[0], e})
 		}
-		sort.Slice(hits, func(i, j int) bool { return hits[i].pos < hits[j].pos })
+		for _, ix := range reDropCol.FindAllStringSubmatchIndex(m[2], -1) {
+			e := base("dropcol")
+			e["t"], e["col"] = t, unq(m[2][ix[2]:ix[3]])
+			hits = append(hits, hit{ix[0], e})
+		}
+		// what a statement drops goes first, whatever the order of its clauses (both engines)
+		rank := func(h hit) int {
+			switch h.e["ev"] {
+			case "dropfk", "dropcheck":
+				return 0
+			case "dropcol":
+				return 1
+			}
+			return 2
+		}
+		sort.Slice(hits, func(i, j int) bool {
+			if ri, rj := rank(hits[i]), rank(hits[j]); ri != rj {
+				return ri < rj
+			}
+			return hits[i].pos < hits[j].pos
+		})
 		for _, h := range hits {
 			es = append(es, h.e)
 		}
@@ -367,19 +430,33 @@ func planner(d string) migrate.PlanApplier {
 }
 
 func runScenario(dialect string, n int, edges [][2]int, roles, req string, updown bool) {
+	runScenarioD(dialect, n, edges, roles, req, updown, false)
+	if !updown && req == "realm" && strings.Contains(roles, "k") {
+		runScenarioD(dialect, n, edges, roles, req, false, true)
+	}
+}
+
+// dropcol: the kept tables drop the columns of the foreign keys they drop as well (scenario direction "up-dropcol")
+func runScenarioD(dialect string, n int, edges [][2]int, roles, req string, updown, dropcol bool) {
 	sc := &scenario{ID: len(cases) + 1, Dialect: dialect, N: n, Graph: edges, Roles: roles, Req: req, Dir: "up"}
 	if updown {
 		sc.Dir = "updown"
 	}
+	w := build(n, edges, dialect)
+	p := scenarioChanges(w, n, edges, roles, dropcol)
+	if dropcol {
+		if p.dropped == 0 {
+			return
+		}
+		sc.Dir = "up-dropcol"
+	}
 	cases = append(cases, sc)
 	sc.First = line + 1
-	w := build(n, edges, dialect)
-	p := scenarioChanges(w, n, edges, roles)
 	want := p.want
 	if updown {
 		want = p.start
 	}
-	emit(ev{"ev": "reset", "c": sc.ID, "req": req, "schema": marker,
+	emit(ev{"ev": "reset", "c": sc.ID, "req": req, "schema": marker, "dialect": dialect,
 		"start": map[string]any{"tables": p.start.tables, "fks": p.start.fks},
 		"want":  map[string]any{"tables": want.tables, "fks": want.fks}})
 	var opts []migrate.PlanOption
@@ -448,13 +525,13 @@ func runScenario(dialect string, n int, edges [][2]int, roles, req string, updow
 	}
 	emit(ev{"ev": "end", "c": sc.ID, "mustreject": false, "checksmatter": false, "wantchecks": [][2]string{}})
 	sc.Last = line
-	if !updown && req == "realm" {
+	if !updown && !dropcol && req == "realm" {
 		// the same change objects planned once more (the CLI plans for the summary and again when applying): planning must not have
 		// altered its input, the second plan has to satisfy the catalogue as well
 		sc2 := &scenario{ID: len(cases) + 1, Dialect: dialect, N: n, Graph: edges, Roles: roles, Req: req, Dir: "replan"}
 		cases = append(cases, sc2)
 		sc2.First = line + 1
-		emit(ev{"ev": "reset", "c": sc2.ID, "req": req, "schema": marker,
+		emit(ev{"ev": "reset", "c": sc2.ID, "req": req, "schema": marker, "dialect": dialect,
 			"start": map[string]any{"tables": p.start.tables, "fks": p.start.fks},
 			"want":  map[string]any{"tables": want.tables, "fks": want.fks}})
 		pl2, err := planner(dialect).PlanChanges(context.Background(), "plan", p.changes, opts...)
@@ -501,6 +578,7 @@ func main() {
 		if *colmod {
 			runColMod()
 			runIdxMod()
+			runIdxCol()
 		} else if *fkmod {
 			runFKMod()
 		} else {
